@@ -1,0 +1,25 @@
+//go:build verif
+
+package client
+
+import "time"
+
+// Thin exported wrappers over internals that the package's own tests already
+// pin by name. Compiled only with -tags verif; nothing else references them.
+
+func VerifSplitMessage(msg string, splitLen int) []string { return splitMessage(msg, splitLen) }
+func VerifSplitArgs(args []string, maxLen int) []string   { return splitArgs(args, maxLen) }
+func VerifIndexFragment(s string) int                     { return indexFragment(s) }
+func VerifCutNewLines(s string) string                    { return cutNewLines(s) }
+
+func VerifParseUserHost(uh string) (nick, ident, host string, ok bool) {
+	return parseUserHost(uh)
+}
+
+// VerifRateLimit runs rateLimit(chars) from the given flood-control state and
+// returns the delay it asked for together with the state it left behind.
+func (conn *Conn) VerifRateLimit(chars int, badness time.Duration, lastsent time.Time) (time.Duration, time.Duration, time.Time) {
+	conn.badness, conn.lastsent = badness, lastsent
+	d := conn.rateLimit(chars)
+	return d, conn.badness, conn.lastsent
+}
